@@ -129,6 +129,12 @@ func c16gates(c *engine.Ctx, p *engine.Prog) {
 			ok, why := c16gated(f, s, 1, 3)
 			kcAt(c, p, "debit-gate", f.Name+" -> sendCoins", s.Pos(), ok, why)
 		}
+		// sendCoins inlined: the debit itself sits in SendCoins
+		for _, s := range f.CallsTo(B+"SubtractCoins", B+"subtractCoinsUnrestricted", B+"subtract") {
+			n++
+			ok, why := c16gated(f, s, 1, 2)
+			kcAt(c, p, "debit-gate", f.Name+" -> sendCoins", s.Pos(), ok, why)
+		}
 	}
 	if f := c.MustFunc(B + "InputOutputCoins"); f != nil {
 		for _, s := range f.CallsTo(B + "SubtractCoins") {
@@ -152,7 +158,7 @@ func c16gates(c *engine.Ctx, p *engine.Prog) {
 		allow []string
 	}{
 		{"sendCoins", []string{B + "SendCoins"}},
-		{"SubtractCoins", []string{B + "InputOutputCoins", B + "sendCoins", B + "BurnCoins" /* exempt: realm burn, see SubtractCoins doc */}},
+		{"SubtractCoins", []string{B + "InputOutputCoins", B + "sendCoins", B + "SendCoins" /* gated above when inlined */, B + "BurnCoins" /* exempt: realm burn, see SubtractCoins doc */}},
 		{"subtractCoinsUnrestricted", []string{B + "SendCoinsUnrestricted"}},
 		{"subtract", []string{B + "SubtractCoins", B + "subtractCoinsUnrestricted"}},
 		{"SendCoinsUnrestricted", []string{V + "lockStorageDeposit", V + "refundStorageDeposit" /* exempt: from = realm deposit address */, c16A + ".DeductFees"}},
